@@ -237,6 +237,8 @@ def _run(case, cfg, w):
                 if not cands:
                     continue
                 id_ = cands[0]
+            if cfg.get('malformed_acks') and pi % 5 == 0:
+                payload = None        # an ACK frame without any payload
             match = sid is not None and id_ in outstanding.get(sid, {})
             if kind != 'right' or id_ == 0:
                 nontrivial = True
@@ -248,6 +250,15 @@ def _run(case, cfg, w):
             sc.peers[p].send_pkt(sio.ACK, ns, id_, payload)
             w.settle(horizon=0.05)
             fired = cb_log[n_cb:]
+            if match and payload is None:
+                # malformed input (outside C06's domain, used by the
+                # differential check C14 only): whatever happens, the entry
+                # is consumed; no claim here
+                tag = outstanding[sid].pop(id_)
+                used.setdefault(sid, []).append(id_)
+                dead_tags.add(tag)
+                expected_cb[tag] = [f[1] for f in fired][0] if fired else []
+                continue
             if match:
                 tag = outstanding[sid].pop(id_)
                 used.setdefault(sid, []).append(id_)
